@@ -19,9 +19,14 @@ def build(base):
     return root, out
 
 
+_SENT = [0]
+
+
 def collect(q, root, timeout=10.0):
-    """events up to the sentinel's creation (exclusive); the sentinel's own events are dropped"""
-    sent = os.path.join(root, "zz-sentinel")
+    """events up to the sentinel's creation (exclusive); the sentinel's own events are dropped (every call uses a sentinel of
+    its own: late events of an earlier sentinel must not be taken for this one)"""
+    _SENT[0] += 1
+    sent = os.path.join(root, f"zz-sentinel-{_SENT[0]}")
     open(sent, "w").close()
     got, t0 = [], time.time()
     seen = False
@@ -35,6 +40,8 @@ def collect(q, root, timeout=10.0):
         if getattr(ev, "src_path", None) == sent:
             seen = True
             continue
+        if "zz-sentinel-" in os.fsdecode(getattr(ev, "src_path", "") or ""):
+            continue
         if seen and isinstance(ev, E.DirModifiedEvent) and ev.src_path == root:
             continue
         got.append(ev)
@@ -43,7 +50,7 @@ def collect(q, root, timeout=10.0):
     while time.time() - t1 < 0.5:   # drain the sentinel's removal
         try:
             ev, _w = q.get(timeout=0.05)
-            if getattr(ev, "src_path", None) != sent and not (isinstance(ev, E.DirModifiedEvent) and ev.src_path == root):
+            if "zz-sentinel-" not in os.fsdecode(getattr(ev, "src_path", "") or "") and not (isinstance(ev, E.DirModifiedEvent) and ev.src_path == root):
                 got.append(ev)
         except queue.Empty:
             break
@@ -104,7 +111,37 @@ def nonrecursive_contract(name, required, root):
     return out
 
 
-def run_op(name, recursive):
+class OneRecordPerRead:
+    """every os.read on an inotify descriptor hands out one record (the reader wakes between the two halves of a rename)"""
+
+    def __enter__(self):
+        import errno
+        import watchdog.observers.inotify_c as ic
+        self.ic, self.real = ic, ic.os.read
+        real = self.real
+
+        def read(fd, n):
+            if n < 1024:
+                return real(fd, n)
+            time.sleep(0.05)          # ... and the consumer of the buffer gets to run between two records
+            for size in range(16, 16 + 4096, 16):
+                try:
+                    return real(fd, size)
+                except OSError as e:
+                    if e.errno != errno.EINVAL:
+                        raise
+            return real(fd, n)
+        ic.os.read = read
+        return self
+
+    def __exit__(self, *a):
+        self.ic.os.read = self.real
+
+
+def run_op(name, recursive, split=False):
+    if split:
+        with OneRecordPerRead():
+            return [p + " [one record per read]" for p in run_op(name, recursive, False)]
     base = tempfile.mkdtemp(prefix="c03e")
     problems, moved_in = [], set()
     try:
